@@ -17,19 +17,31 @@ import replsess  # noqa: E402
 META = {
     "title": "Interactive evaluation equals batch evaluation",
     "level": "model_checking",
-    "technique": "Repl.tla (the interactive loop as AldorSem's file level stepped form by form, plus the rejected-form rule) checked by TLC "
-                 "(ReplEqBatch and stepwise invariants over every interleaving); TLC's histories replayed into `aldor -Gloop` and the "
-                 "whole file into `aldor -Ginterp`",
+    "technique": "Repl.tla (the interactive loop as AldorSem's file level stepped form by form, plus the rejected-form rule), ReplTab.tla "
+                 "(the file-level symbol table as a map name -> set of meanings across steps, the roll-back of a rejected step as an action "
+                 "with the postcondition `table = table before the step') and ReplReader.tla (the required grouping of input lines into "
+                 "steps as a lexical state machine) checked by TLC; TLC's histories / sessions replayed into `aldor -Gloop' and the whole "
+                 "file into `aldor -Ginterp'",
     "design_ref": "DESIGN.md 3.12 (Repl), 5 C13",
     "level_text": "TLC enumerates, for every program of the family, every history: the program's top-level forms in order interleaved at all "
                   "positions with up to maxbad erroneous forms (ill-typed catalogue, forms of the program entered before a name they read "
                   "is defined), runs the batch machine and the session machine of AldorSem on it and checks ReplEqBatch, SessionPrefix, "
                   "FormOutputsAlign and that a rejected form leaves the session unchanged. Every exported history is rendered form by form, "
                   "piped to a fresh `aldor -Gloop`, and the loop's output is projected on (program line | rejected step | evaluated step) "
-                  "and must equal the projection of the session TLC computed; the whole file must print TLC's batch output under -Ginterp.",
-    "level_note": "Trusted: AldorSem.tla, the renderer, the reading of the loop's output (marker-prefixed lines are program output, a "
-                  "`#1 (Error)' group is one rejected step, the timing line is one evaluated step). The family is gen/progen.py's programs "
-                  "with at most 6-8 top-level forms, without halting programs; every history starts from a fresh compiler process.",
+                  "and must equal the projection of the session TLC computed; the whole file must print TLC's batch output under -Ginterp. "
+                  "ReplTab.tla: sessions of ten definitions (overloads, constants, imports, Record / Union / Enumeration constants) with "
+                  "rejected forms at every position that overlap the names defined so far (rejected overload, confirmed / refused "
+                  "redefinition, other-type redeclaration, constant of a new structured type whose exports overlap imported names, import "
+                  "of known and unknown domains); after the rejected form every meaning of the session is used and every meaning the form "
+                  "tried to create is used (must be rejected); TLC checks UndoRestores / TableAsWithout / OutputAsWithout and refutes two "
+                  "wrong roll-back designs; every session is replayed. ReplReader.tla: every literal content / comment text up to a length "
+                  "bound over the lexical alphabets, in one-line, parenthesis-, brace- and pile-continued forms, each followed by a form of "
+                  "the opposite verdict; Required must cut each session at its form ends (TLC) and the loop must produce the outputs, "
+                  "rejections and evaluated steps of exactly those steps (replay).",
+    "level_note": "Trusted: AldorSem.tla, the renderers (gen/render.py, gen/replhist.py, gen/replsess.py), the reading of the loop's output "
+                  "(marker-prefixed lines are program output, a `#1 (Error)' group is one rejected step, the timing line is one evaluated "
+                  "step). The family is gen/progen.py's programs with at most 6-8 top-level forms, without halting programs, plus the fixed "
+                  "universes of ReplTab.tla and ReplReader.tla; every history starts from a fresh compiler process.",
 }
 
 
@@ -502,13 +514,44 @@ def run(chk, tier):
                 "(full catalogue with maxbad = 1, a drawn part of it with maxbad = 2) at every position; each history is rendered in one "
                 "of the layouts line / braces / piled / paren and in the loop's verbose or quiet mode; a case is (program, history, route); "
                 "non-trivial = the history has a rejected form or the session prints something.  Separately every sequence of <= 3 (4) forms "
-                "over 11 layout shapes is cut into steps by ReplLines.tla (exhaustive) and by the real scanIsContinued")
+                "over 11 layout shapes is cut into steps by ReplLines.tla (exhaustive) and by the real scanIsContinued.  ReplTab.tla: for "
+                "each order of its 10 definitions (1 per quick run, drawn by the seed; 4 in thorough) every session with one catalogue form "
+                "(17) at every position, uses directly after it or after the next definition (thorough: also two rejected forms per session, "
+                "8 catalogue forms); a case is one session.  ReplReader.tla: every item of its shapes with literal contents of <= 2 (3) atoms "
+                "out of 13 and comment texts of <= 2 (3) atoms out of 9 (exhaustive within the bound); items are packed 12 to a session "
+                "(rotation by the seed) unless the transcription of scanIsContinued predicts a departure; a case is one session")
     chk.exhaustive = False
     chk.assumptions += ["every history starts in a fresh compiler process; the preamble (#include, macros, imports, one constant) is not "
                         "part of the history", "the loop is run with address-space randomisation off so that a fault depends on the input only",
                         "only order-independent, normally terminating programs are replayed",
                         "a piled definition is typed with a closing comment line in column 1 (the loop reads the first unindented line "
-                        "together with the definition)"]
+                        "together with the definition)",
+                        "ReplReader: forms announce their continuation lexically (open bracket, open literal, escaped newline, `==' at the "
+                        "end of the line); a form continued only by the indentation of its next line (e.g. after a trailing operator) is not "
+                        "typed into a line-at-a-time reader and is not in the family; no literal contains a raw newline",
+                        "ReplTab: a definition of a (name, signature) the session already has is answered by the loop's `Redefine? (y/n)' "
+                        "question; the session text carries the answer on the next line; accepted redefinitions are outside the property "
+                        "(a file has no redefinition) and not generated"]
+
+
+def replay(d):
+    """bin/verif replay C13 <file>: pipe the recorded session into the loop built from the working tree again and compare its
+    projection with the recorded specified projection (which came from the TLC run of the reporting check)."""
+    det = d.get("detail")
+    if not isinstance(det, dict) or "input" not in det or "specified_projection" not in det:
+        return 0
+    b = vlib.vbuild()
+    wd = vlib.scratch("c13replay")
+    res = run_loop(b, det["input"], wd, _setarch())
+    v = judge_tokens([tuple(t) for t in det["specified_projection"]], res)
+    print(res["out"][-4000:])
+    if v is None:
+        print("REPLAY: the session now conforms to the specified projection")
+        return 0
+    print("REPLAY: %s: %s" % (v[0], v[1]))
+    print("observed : %s" % (v[2],))
+    print("specified: %s" % (v[3],))
+    return 1
 
 
 SELFTEST_NOTES = """
